@@ -54,3 +54,57 @@ Proof.
     destruct corners; (split; (fcbv; (list_eq; [field [R00 R01 R02] | field [R01 R11 R12] | field [R02 R12 R22]]))); side.
 Qed.
 End Cube.
+
+(* two cubes: the matrix Cube.transform returns when to_cube is given *)
+Definition cube2_T {K : fld} (D : nat) (from_world to_world vectors : bool) (e c : list K) (d : list (list K))
+    (te tc : list K) (td : list (list K)) : list (list K) :=
+  match D, from_world, to_world, vectors with
+  | 2%nat, false, false, false => gen_cube2T_CC_2 e c d te tc td | 2%nat, false, false, true => gen_cube2Tv_CC_2 e c d te tc td
+  | 2%nat, false, true, false => gen_cube2T_CW_2 e c d te tc td | 2%nat, false, true, true => gen_cube2Tv_CW_2 e c d te tc td
+  | 2%nat, true, false, false => gen_cube2T_WC_2 e c d te tc td | 2%nat, true, false, true => gen_cube2Tv_WC_2 e c d te tc td
+  | 3%nat, false, false, false => gen_cube2T_CC_3 e c d te tc td | 3%nat, false, false, true => gen_cube2Tv_CC_3 e c d te tc td
+  | 3%nat, false, true, false => gen_cube2T_CW_3 e c d te tc td | 3%nat, false, true, true => gen_cube2Tv_CW_3 e c d te tc td
+  | 3%nat, true, false, false => gen_cube2T_WC_3 e c d te tc td | 3%nat, true, false, true => gen_cube2Tv_WC_3 e c d te tc td
+  | _, _, _, _ => []
+  end.
+Definition cube_Tv {K : fld} (D : nat) (to_world : bool) (e c : list K) (d : list (list K)) : list (list K) :=
+  match D, to_world with
+  | 2%nat, true => gen_cubeTv_CW_2 e c d | 2%nat, false => gen_cubeTv_WC_2 e c d
+  | 3%nat, true => gen_cubeTv_CW_3 e c d | 3%nat, false => gen_cubeTv_WC_3 e c d
+  | _, _ => []
+  end.
+
+Section TwoCubes.
+Variable K : fld.
+Hypothesis Kf : is_field K.
+Hypothesis Kc : char0 K.
+Add Field KF4b : Kf.
+Let K2 := K2nz K Kf Kc.
+Hint Resolve K2 : core.
+Ltac len2 X H := destruct X as [|?x0 [|?x1 [|? ?]]]; try discriminate H; clear H.
+Ltac len3 X H := destruct X as [|?x0 [|?x1 [|?x2 [|? ?]]]]; try discriminate H; clear H.
+
+(* with to_cube given, every axes pair is "this cube -> world -> other cube": points and vectors, D = 2, 3, any two
+   cubes with non-zero extents (no orthonormality needed: it is associativity of the matrix products the code forms) *)
+Lemma cube_two_through_world (D : nat) (e c te tc : nat -> K) (d td : nat -> nat -> K) (X : list K) :
+  D = 2%nat \/ D = 3%nat -> (forall i, (i < D)%nat -> e i <> 0) -> (forall i, (i < D)%nat -> te i <> 0) -> length X = D ->
+  let E := vtab D e in let C := vtab D c in let Dm := tab D D d in
+  let TE := vtab D te in let TC := vtab D tc in let TD := tab D D td in
+  (* CUBE -> CUBE of the other cube *)
+  happly D (cube2_T D false false false E C Dm TE TC TD) X
+    = happly D (cube_T D false false TE TC TD) (happly D (cube_T D true false E C Dm) X) /\
+  mv (cube2_T D false false true E C Dm TE TC TD) X = mv (cube_Tv D false TE TC TD) (mv (cube_Tv D true E C Dm) X) /\
+  (* WORLD -> CUBE of the other cube: the other cube's map, not this cube's *)
+  happly D (cube2_T D true false false E C Dm TE TC TD) X = happly D (cube_T D false false TE TC TD) X /\
+  mv (cube2_T D true false true E C Dm TE TC TD) X = mv (cube_Tv D false TE TC TD) X /\
+  (* CUBE -> WORLD does not depend on the other cube *)
+  happly D (cube2_T D false true false E C Dm TE TC TD) X = happly D (cube_T D true false E C Dm) X /\
+  mv (cube2_T D false true true E C Dm TE TC TD) X = mv (cube_Tv D true E C Dm) X.
+Proof.
+  intros HD He Hte HX.
+  destruct HD as [-> | ->]; [len2 X HX | len3 X HX];
+    pose proof (He 0%nat ltac:(lia)); pose proof (He 1%nat ltac:(lia)); try pose proof (He 2%nat ltac:(lia));
+    pose proof (Hte 0%nat ltac:(lia)); pose proof (Hte 1%nat ltac:(lia)); try pose proof (Hte 2%nat ltac:(lia));
+    repeat split; fcbv; list_eq; field; repeat split; auto.
+Qed.
+End TwoCubes.
